@@ -24,8 +24,9 @@ import evalref
 ID = 'C04'
 LEAN_MODULES = ['Yaql.Props.C04']
 REQUIRED_THEOREMS = ['Yaql.Props.C04.' + n for n in (
-    'frame sibling_independence shadowing shadowing_let unknown_null dollar_alias lambda_binds_innermost '
-    'closure_lexical no_leak_arg no_leak_lambda no_leak_callee member_maps fuel_mono empty_frame_invisible').split()]
+    'frame frame_root sibling_independence shadowing shadowing_let unknown_null dollar_alias lambda_binds_innermost '
+    'lambda_dollar get_argFrame with_numbering closure_lexical closure_lexical_args ucall_eq no_leak_arg no_leak_lambda '
+    'no_leak_callee member_maps fuel_mono empty_frame_invisible').split()]
 TRUSTED = ['harness/evalref.py (plain-Python transcription of the language reference, second opinion for every case)',
            'harness/evalgen.py: the renderer AST -> yaql text (every generated text is parsed back by the engine under '
            'test and compared with the AST that goes to the model)']
